@@ -251,6 +251,16 @@ class QRef:
             return self._pauli_measurement(b, gate, targets, key_override=(key_of(gate.key) if key_of else None))
         if key_of is not None and cirq.is_measurement(untagged):
             raise Unsupported("keyed channel inside a sub-circuit")
+        if getattr(gate, "_verif_composite_", False):
+            # a gate defined only by its decomposition (e.g. "gate followed by its error channel"):
+            # its meaning is the sequence it decomposes into
+            branches = [b]
+            for sub in cirq.decompose_once(untagged):
+                nxt: List[Branch] = []
+                for br in branches:
+                    nxt.extend(self._step_branch(br, sub, qmap=qmap, key_of=key_of))
+                branches = nxt
+            return branches
         if cirq.has_unitary(untagged):
             u = cirq.unitary(untagged)
             return [self._apply_unitary(b, sp.embed(u, targets))]
